@@ -60,7 +60,7 @@ CHECKS = {
                   "command frames are the reference frames of that very login's session id (C02); `locality`/`no_leak`: for EVERY "
                   "schedule of ANY number of instances an instance's behaviour is its own sequential run (induction over the schedule). "
                   "PARTIAL: that the Python objects share nothing is checked by correspondence on histories (all ordered pairs of the 15 "
-                  "operation kinds, sequences to length 20 with fresh session ids and an advancing clock - also with logins that are not answered or answered short inside a sequence -, two instances under forced "
+                  "operation kinds, sequences to length 20 with fresh session ids and an advancing clock - also with logins that are not answered or answered short inside a sequence, and with a device that is slow to answer under a virtual loop clock -, two instances under forced "
                   "interleavings); the asyncio scheduler itself is not modelled.",
              note="Trusted: Lean kernel (propext, Classical.choice, Quot.sound); deterministic scheduler on in-memory streams in place "
                   "of real reply delays; same-instance concurrency is outside the property.",
